@@ -411,7 +411,35 @@ func (w *World) sitesIn(root, g *ssa.Function) []ssa.CallInstruction {
 			out = append(out, s)
 		}
 	}
+	// one activation selected (per-call-site analysis of a helper entered several times)
+	if pin, ok := w.pinned[g]; ok {
+		for _, s := range out {
+			if s == pin {
+				return []ssa.CallInstruction{s}
+			}
+		}
+	}
 	return out
+}
+
+// Pin selects one call site of helper g for the duration of f: parameters of g resolve to the arguments of that
+// site, and the facts inside g are those of that site. The facts view returned to f is private to the activation.
+func (w *World) Pin(root, g *ssa.Function, site ssa.CallInstruction, f func(facts *Facts)) {
+	if w.pinned == nil {
+		w.pinned = map[*ssa.Function]ssa.CallInstruction{}
+	}
+	old, had := w.pinned[g]
+	w.pinned[g] = site
+	base := w.factsOf(root)
+	view := &Facts{fn: base.fn, w: w, in: base.in, nd: base.nd, deep: map[*ssa.BasicBlock]map[Lit]bool{}}
+	defer func() {
+		if had {
+			w.pinned[g] = old
+		} else {
+			delete(w.pinned, g)
+		}
+	}()
+	f(view)
 }
 
 func (w *World) callsInDeep(fn *ssa.Function) []ssa.CallInstruction {
